@@ -301,3 +301,20 @@ def _plain_str(ip, a, kw, node):
 
 
 R.EXTERNALS["builtins.str.__str__"] = R.ExtFn(_plain_str)
+
+
+# str.isidentifier(k) / keyword.iskeyword(s): slots of str itself / a frozenset test on a plain str - no user code; the text predicates are uninterpreted
+is_identifier = declare_pred("is_identifier", L.V, L.B)
+is_keyword = declare_pred("is_keyword", L.V, L.B)
+
+
+def _isidentifier(ip, a, kw, node):
+    k_ = a[0]
+    if isinstance(k_, ZV):
+        ip.partial(is_strval(k_.term), "TypeError", node, "str.isidentifier")
+        return ZB(is_identifier(k_.term))
+    return ZB(is_identifier(as_v(k_)))
+
+
+R.EXTERNALS["builtins.str.isidentifier"] = R.ExtFn(_isidentifier)
+R.EXTERNALS["keyword.iskeyword"] = R.ExtFn(lambda ip, a, kw, node: ZB(is_keyword(as_v(a[0]))))
